@@ -154,7 +154,11 @@ def draw_cost(rng, palette, hard_value=10000):
 
 def _names(rng, n):
     # names decoupled from creation order (lexical order matters for ordered graphs / dfs roots)
-    pool = ["v%02d" % i for i in range(30)]
+    if rng.random() < 0.25:
+        # names of different lengths, where lexical order differs from numeric / length order (x10 < x2)
+        pool = ["x%d" % i for i in range(1, 14)] + ["y", "ab"]
+    else:
+        pool = ["v%02d" % i for i in range(30)]
     rng.shuffle(pool)
     return pool[:n]
 
@@ -330,9 +334,14 @@ def gen_propagation_chain_case(rng):
     variables = [{"name": nm, "domain": list(dom), "initial": None, "costs": None} for nm in chain + leaves]
     P = 10 * rng.randint(1, 3)
     s = rng.randint(1, 3)
+    base = 0
+    if rng.random() < 0.4:
+        # large constant part in every factor, small decisive differences (late information changes the factor ->
+        # variable messages by far less than 10 %)
+        base, P, s = rng.choice([100, 1000]), rng.randint(1, 3), rng.choice([0.25, 0.5])
 
     def agree(x, y, k):
-        return {"name": "c%02d" % k, "scope": [x, y], "kind": "matrix", "table": [0, sign * P, sign * P, 0]}
+        return {"name": "c%02d" % k, "scope": [x, y], "kind": "matrix", "table": [sign * base, sign * (base + P), sign * (base + P), sign * base]}
 
     cons = []
     for i in range(n - 1):
